@@ -7,8 +7,19 @@ import Isotp.Params
   floats, nan / inf included).
 
   `validate` contains two `try ... except OverflowError` (`tryCatch`), so its meaning is given by the second semantics
-  (`run2` / `exec2B` of Isotp/Py/Exec2.lean, fuel `n`); every statement without a `tryCatch` is proved in the first semantics
-  (`execStmt`) and carried over with the bridge theorems of Exec2Bridge.lean.
+  (`run2` / `exec2B` of Isotp/Py/Exec2.lean, fuel `n ≥ 51`); every statement without a `tryCatch` is proved in the first semantics
+  (`execStmt`) and carried over with the bridge theorems of Exec2Bridge.lean.  The dumper renders `a * b` / `a / b` of these functions
+  as the calls `__mul__` / `__truediv__` (the interpreter's own `*` is integer-only), so float arithmetic is a callee (`paramsMeths`).
+
+  Results (§7-§10):
+  * `params_validate_agrees` (`_env`, `_iff`): `validate()` returns `None` iff `validateParams p && extraOk p F x`, raises `ValueError`
+    otherwise; `extraOk` = the checks the model has no term for (`_fits_float` of the two timeouts, `logger_name`, `wait_func`).
+    Hypothesis `Coherent p F`: the model's float facts (`prod`, `ovrScaledFinite`) are the ones Python computes.
+    `finalEnvOf_unchanged / _override / _tat`: the object is unchanged except `override_receiver_stmin := float(...)`,
+    `default_target_address_type := TargetAddressType(...)`.
+  * `fits_disagreement`: the one place where `validateParams` and the source differ on the RAW value (a timeout too large for a float;
+    the harness hands such a value over as `+inf`, where they agree again).
+  * `params_init_defaults`, `params_init_then_validate`; `params_set_agrees`; `fits_float_exec`.
 -/
 set_option linter.unusedSimpArgs false
 namespace Isotp.PyAgree.Params
@@ -1058,24 +1069,34 @@ def srcCond (p : ParamArgs) (F : Facts) (x : Extra) : Bool :=
   F.waitExc.isNone && (
   true)))))))))))))))))))))))))))))))))))
 
-/-- the object (and the one local) a successful `validate()` leaves behind -/
-def finalEnv (p : ParamArgs) (x : Extra) : Env :=
-  (env19 p x (env9 p (paramsEnv p x))).set "window_bits_finite" (pbool (finBits p))
+/-- a starting environment presents `p`: the attributes of `paramsEnv p x`, whatever else it binds -/
+structure Presents (p : ParamArgs) (x : Extra) (env : Env) : Prop where
+  pres : Pres p x env
+  ovr : env ovrKey = some (pv p.overrideStmin)
+  tat : env tatKey = some (tatPres p x)
 
-theorem env9_tat : env9 p (paramsEnv p x) tatKey = some (tatPres p x) := by
+theorem presents_paramsEnv : Presents p x (paramsEnv p x) := ⟨pres_init p x, rfl, rfl⟩
+
+/-- the object (and the one local) a successful `validate()` leaves behind, from the starting environment `env` -/
+def finalEnvOf (p : ParamArgs) (x : Extra) (env : Env) : Env :=
+  (env19 p x (env9 p env)).set "window_bits_finite" (pbool (finBits p))
+/-- ... from `paramsEnv p x` -/
+def finalEnv (p : ParamArgs) (x : Extra) : Env := finalEnvOf p x (paramsEnv p x)
+
+theorem env9_tat (h : env tatKey = some (tatPres p x)) : env9 p env tatKey = some (tatPres p x) := by
   unfold env9; split
-  · rfl
-  · rw [set_other _ _ _ _ (by decide)]; rfl
+  · exact h
+  · rw [set_other _ _ _ _ (by decide)]; exact h
 
-theorem validate_steps (hC : Coherent p F) :
-    StepB M 51 (paramsEnv p x) Src.TransportLayerLogic_Params_validate (srcCond p F x) (finalEnv p x) := by
-  have H0 : Pres p x (paramsEnv p x) := pres_init p x
-  have H1 : Pres p x (env9 p (paramsEnv p x)) := H0.env9
-  have H2 : Pres p x (env19 p x (env9 p (paramsEnv p x))) := H1.env19
-  have H3 : Pres p x (finalEnv p x) := H2.set _ _ (.inr (.inr rfl))
-  have htat := env9_tat p x
+theorem validate_steps (hC : Coherent p F) (hP : Presents p x env) :
+    StepB M 51 env Src.TransportLayerLogic_Params_validate (srcCond p F x) (finalEnvOf p x env) := by
+  have H0 : Pres p x env := hP.pres
+  have H1 : Pres p x (env9 p env) := H0.env9
+  have H2 : Pres p x (env19 p x (env9 p env)) := H1.env19
+  have H3 : Pres p x (finalEnvOf p x env) := H2.set _ _ (.inr (.inr rfl))
+  have htat := env9_tat p env x hP.tat
   rw [body_eq]
-  unfold srcCond finalEnv
+  unfold srcCond finalEnvOf
   exact
     StepB.cons' (notIntG_step M _ _ _ H0.tFc) fun h0 =>
     StepB.cons' (fitsG_step p F _ _ _ H0.tFc h0) fun h1 =>
@@ -1086,7 +1107,7 @@ theorem validate_steps (hC : Coherent p F) :
     StepB.cons' (rangeG_step M _ _ _ H0.stmin h5) fun h6 =>
     StepB.cons' (notIntG_step M _ _ _ H0.blocksize) fun h7 =>
     StepB.cons' (rangeG_step M _ _ _ H0.blocksize h7) fun h8 =>
-    StepB.cons' (s9_step p F _ hC rfl) fun h9 =>
+    StepB.cons' (s9_step p F _ hC hP.ovr) fun h9 =>
     StepB.cons' (notIntG_step M _ _ _ H1.wftmax) fun h10 =>
     StepB.cons' (ltZeroG_step M _ _ _ H1.wftmax h10) fun h11 =>
     StepB.cons' (notIntG_step M _ _ _ H1.txDl) fun h12 =>
@@ -1151,6 +1172,18 @@ theorem run2_of_stepB_err {M' : Meths} {k : Nat} {e e' : Env} {b : PBlock} {c : 
   obtain ⟨e1, h1⟩ := h.2 hc n hn
   exact ⟨e1, by unfold run2; rw [h1]⟩
 
+/-- `params_validate_agrees` from any starting environment that presents `p` (e.g. the one `__init__` leaves, which also binds
+    module constants) -/
+theorem params_validate_agrees_env (hC : Coherent p F) (hP : Presents p x env)
+    (hx : x.tatAsMember = true → p.defaultTat = .int 0 ∨ p.defaultTat = .int 1) (n : Nat) (hn : 51 ≤ n) :
+    ((validateParams p && extraOk p F x) = true →
+      run2 n M env Src.TransportLayerLogic_Params_validate = .ok (.ret pnone (finalEnvOf p x env))) ∧
+    ((validateParams p && extraOk p F x) = false →
+      ∃ e, run2 n M env Src.TransportLayerLogic_Params_validate = .ok (.raised "ValueError" e)) := by
+  have h := validate_steps p F env x hC hP
+  rw [srcCond_eq p F x hx] at h
+  exact ⟨fun hc => run2_of_stepB_ok h hc n hn, fun hc => run2_of_stepB_err h hc n hn⟩
+
 /-- **`Params.validate()` against `validateParams`, for every `p`.**
 
     Running the dumped body on the object presenting `p` (`paramsEnv p x`), with the callees of `paramsMeths p F`, for every fuel `n ≥ 51`:
@@ -1165,10 +1198,8 @@ theorem params_validate_agrees (hC : Coherent p F)
     ((validateParams p && extraOk p F x) = true →
       run2 n M (paramsEnv p x) Src.TransportLayerLogic_Params_validate = .ok (.ret pnone (finalEnv p x))) ∧
     ((validateParams p && extraOk p F x) = false →
-      ∃ e, run2 n M (paramsEnv p x) Src.TransportLayerLogic_Params_validate = .ok (.raised "ValueError" e)) := by
-  have h := validate_steps p F x hC
-  rw [srcCond_eq p F x hx] at h
-  exact ⟨fun hc => run2_of_stepB_ok h hc n hn, fun hc => run2_of_stepB_err h hc n hn⟩
+      ∃ e, run2 n M (paramsEnv p x) Src.TransportLayerLogic_Params_validate = .ok (.raised "ValueError" e)) :=
+  params_validate_agrees_env p F _ x hC (presents_paramsEnv p x) hx n hn
 
 /-- the form asked for: when the parts outside the model are well behaved (`extraOk`), `validate()` raises `ValueError` iff
     `validateParams p = false`, and returns `None` otherwise -/
@@ -1205,25 +1236,32 @@ theorem params_validate_not_fits (hC : Coherent p F)
 
 /-! what a successful `validate()` leaves behind: every attribute unchanged, except the two normalisations -/
 
-theorem finalEnv_unchanged : Pres p x (finalEnv p x) :=
-  (((pres_init p x).env9).env19).set _ _ (.inr (.inr rfl))
+theorem finalEnvOf_unchanged (hP : Presents p x env) : Pres p x (finalEnvOf p x env) :=
+  ((hP.pres.env9).env19).set _ _ (.inr (.inr rfl))
 
-theorem finalEnv_override :
-    finalEnv p x ovrKey = some (pv (if p.overrideStmin.isNone then .none else floatOf p.overrideStmin)) := by
-  unfold finalEnv env19 env9
+theorem finalEnvOf_override (hP : Presents p x env) :
+    finalEnvOf p x env ovrKey = some (pv (if p.overrideStmin.isNone then .none else floatOf p.overrideStmin)) := by
+  have h := hP.ovr
+  unfold finalEnvOf env19 env9
   cases hn : p.overrideStmin.isNone <;> cases hm : (!x.tatAsMember && p.defaultTat.isInt) <;>
-    simp [Env.set, ovrKey, tatKey, paramsEnv]
+    simp [Env.set, ovrKey, tatKey] <;> simp only [ovrKey] at h <;> rw [h]
   all_goals (cases hv : p.overrideStmin <;> simp_all [PyVal.isNone])
 
-theorem finalEnv_tat (hv : validateParams p = true) :
-    finalEnv p x tatKey = some (tatOfInt p.defaultTat.intVal) := by
+theorem finalEnvOf_tat (hP : Presents p x env) (hv : validateParams p = true) :
+    finalEnvOf p x env tatKey = some (tatOfInt p.defaultTat.intVal) := by
   have hi : p.defaultTat.isInt = true := by
     simp only [validateParams, Bool.and_eq_true] at hv
     exact hv.1.1.1.1.1.1.1.2.1
-  unfold finalEnv
-  rw [set_other _ _ _ _ (by decide), env19_tat p _ x (env9_tat p x)]
+  unfold finalEnvOf
+  rw [set_other _ _ _ _ (by decide), env19_tat p _ x (env9_tat p env x hP.tat)]
   simp [c20, hi]
 
+theorem finalEnv_unchanged : Pres p x (finalEnv p x) := finalEnvOf_unchanged p _ x (presents_paramsEnv p x)
+theorem finalEnv_override :
+    finalEnv p x ovrKey = some (pv (if p.overrideStmin.isNone then .none else floatOf p.overrideStmin)) :=
+  finalEnvOf_override p _ x (presents_paramsEnv p x)
+theorem finalEnv_tat (hv : validateParams p = true) : finalEnv p x tatKey = some (tatOfInt p.defaultTat.intVal) :=
+  finalEnvOf_tat p _ x (presents_paramsEnv p x) hv
 
 end withMeths
 
@@ -1288,7 +1326,7 @@ def xInit : Extra := { tatAsMember := true, logger := .str "isotp", waitFunc := 
 
 /-- the object `__init__` builds, as nested assignments -/
 def initResult : Env :=
-  ((((((((((((((((((((initEnv.set "self.stmin" (pint 0)).set "self.blocksize" (pint 8)).set "self.override_receiver_stmin" pnone).set
+  (((((((((((((((((((initEnv.set "self.stmin" (pint 0)).set "self.blocksize" (pint 8)).set "self.override_receiver_stmin" pnone).set
     "self.rx_flowcontrol_timeout" (pint 1000)).set "self.rx_consecutive_frame_timeout" (pint 1000)).set "self.tx_padding" pnone).set
     "self.wftmax" (pint 0)).set "self.tx_data_length" (pint 8)).set "self.tx_data_min_length" pnone).set
     "self.max_frame_size" (pint 4095)).set "self.can_fd" (pbool false)).set "self.bitrate_switch" (pbool false)).set
@@ -1307,7 +1345,157 @@ theorem initResult_eq (k : String) (h1 : k ≠ "TransportLayer.LOGGER_NAME") (h2
     initResult k = paramsEnv {} xInit k := by
   unfold paramsEnv
   split <;> first | rfl | skip
-  sorry
+  have e : initResult k = initEnv k := by simp_all [initResult, Env.set]
+  rw [e]; unfold initEnv
+  split <;> simp_all
+
+
+/-- **`Params.__init__` builds exactly the default `ParamArgs`, and the default configuration is accepted by the model.** -/
+theorem params_init_defaults (F : Facts) :
+    runFn (paramsMeths {} F) initEnv Src.TransportLayerLogic_Params_init = .ok (pnone, initResult) ∧
+    (∀ k, k ≠ "TransportLayer.LOGGER_NAME" → k ≠ "time.sleep" → initResult k = paramsEnv {} xInit k) ∧
+    validateParams {} = true :=
+  ⟨init_run F, initResult_eq, by decide⟩
+
+theorem initResult_presents : Presents {} xInit initResult :=
+  ⟨by constructor <;> rfl, rfl, rfl⟩
+
+/-- ... and by the source: `Params().validate()` returns `None` (the timeouts `1000` fit a float, `100000000` is not too large for one,
+    `time.sleep(0.001)` returns), leaving every attribute as `__init__` set it -/
+theorem params_init_then_validate (F : Facts) (h1 : F.fits 1000 = true) (h2 : F.big 100000000 = false) (h3 : F.waitExc = none)
+    (n : Nat) (hn : 51 ≤ n) :
+    run2 n (paramsMeths {} F) initResult Src.TransportLayerLogic_Params_validate =
+      .ok (.ret pnone (finalEnvOf {} xInit initResult)) ∧
+    Pres {} xInit (finalEnvOf {} xInit initResult) ∧
+    finalEnvOf {} xInit initResult ovrKey = some pnone ∧
+    finalEnvOf {} xInit initResult tatKey = some tatPhys := by
+  have hC : Coherent {} F := by
+    constructor
+    · intro h; cases h
+    · intro _; rfl
+    · intro _ _ h; rw [show ({} : ParamArgs).rlBitrate.intVal = 100000000 from rfl, h2] at h; cases h
+    · intro h; cases h
+  have hE : (validateParams {} && extraOk {} F xInit) = true := by
+    have : extraOk {} F xInit = true := by
+      simp [extraOk, show ({} : ParamArgs).tFc.intVal = 1000 from rfl, show ({} : ParamArgs).tCf.intVal = 1000 from rfl, h1, h3,
+        xInit, isStrPV, isCallablePV]
+    rw [this]; decide
+  exact ⟨(params_validate_agrees_env {} F _ xInit hC initResult_presents (fun _ => .inl rfl) n hn).1 hE,
+    finalEnvOf_unchanged {} _ xInit initResult_presents,
+    finalEnvOf_override {} _ xInit initResult_presents,
+    finalEnvOf_tat {} _ xInit initResult_presents (by decide)⟩
+
 
 end withMeths
+
+/-! ## 9. `Params.set` -/
+
+theorem nb_emptydict (a : List PV) : evalBuiltin "__emptydict__" a = none := by unfold evalBuiltin; split <;> simp_all
+theorem nb_setattr (a : List PV) : evalBuiltin "setattr" a = none := by unfold evalBuiltin; split <;> simp_all
+theorem nb_validate (a : List PV) : evalBuiltin "self.validate" a = none := by unfold evalBuiltin; split <;> simp_all
+
+/-- **`Params.set(key, val, validate)` = `setattr(self, key, val)`, then `self.validate()` iff `validate` is truthy.**
+    For ANY callees `M` such that `__emptydict__()` (the dumper's rendering of the literal `{}`) is the empty mapping - `key in {}` is then
+    false, so the alias lookup never happens - and `setattr` leaves the local `validate` alone (`hpres`; it writes an attribute of `self`).
+    `self.validate` is any procedure: `params_validate_agrees` says what the real one does. -/
+theorem params_set_agrees (M : Meths) (env : Env) (selfv val vv : PV) (key : String) (b : Bool)
+    (hself : env "self" = some selfv) (hkey : env "key" = some (.str key)) (hval : env "val" = some val)
+    (hE : ∀ e, M.fn "__emptydict__" [] e = .ok (.list []))
+    (hpres : ∀ env1, M.proc "setattr" [selfv, .str key, val] (env.set "param_alias" (.list [])) = .ok env1 →
+      env1 "validate" = some vv)
+    (hv : truthy vv = .ok b) :
+    runFn M env Src.TransportLayerLogic_Params_set =
+      (M.proc "setattr" [selfv, .str key, val] (env.set "param_alias" (.list []))) >>= fun env1 =>
+        if b then (M.proc "self.validate" [] env1) >>= fun env2 => .ok (pnone, env2) else .ok (pnone, env1) := by
+  cases hs : M.proc "setattr" [selfv, .str key, val] (env.set "param_alias" (.list [])) with
+  | error e =>
+    simp [runFn, Src.TransportLayerLogic_Params_set, execBlock, execStmt, eval, evalArgs, nb_emptydict, hE, nb_setattr, Env.set,
+      hself, hkey, hval, hs]
+  | ok env1 =>
+    have h1 := hpres env1 hs
+    cases b <;>
+    simp [runFn, Src.TransportLayerLogic_Params_set, execBlock, execStmt, eval, evalArgs, nb_emptydict, hE, nb_setattr, nb_validate,
+      Env.set, hself, hkey, hval, hs, h1, hv]
+    cases M.proc "self.validate" [] env1 <;> rfl
+
+/-- `setattr` on `self.stmin` only, `self.validate` = `V` -/
+def setMethsEx (V : Env → Except PErr Env) : Meths where
+  fn name args _ :=
+    match name, args with
+    | "__emptydict__", [] => .ok (.list [])
+    | _, _ => .error (.unsupported ("call " ++ name))
+  proc name args env :=
+    match name, args with
+    | "setattr", [.meth "self", .str "stmin", v] => .ok (env.set "self.stmin" v)
+    | "self.validate", [] => V env
+    | _, _ => .error (.unsupported ("call " ++ name))
+
+def setEnvEx (validate : Bool) : Env := fun k =>
+  match k with
+  | "self" => some (.meth "self")
+  | "key" => some (.str "stmin")
+  | "val" => some (pint 300)
+  | "validate" => some (pbool validate)
+  | _ => none
+
+/-- `set('stmin', 300)` with a `validate()` that rejects: `ValueError`; `set('stmin', 300, validate=False)`: stored -/
+example : runFn (setMethsEx fun _ => .error (.exc .ValueError)) (setEnvEx true) Src.TransportLayerLogic_Params_set =
+    .error (.exc .ValueError) := by
+  rw [params_set_agrees _ _ (.meth "self") (pint 300) (pbool true) "stmin" true rfl rfl rfl (fun _ => rfl)
+    (fun env1 h => by cases h; rfl) rfl]
+  rfl
+example : runFn (setMethsEx fun _ => .error (.exc .ValueError)) (setEnvEx false) Src.TransportLayerLogic_Params_set =
+    .ok (pnone, ((setEnvEx false).set "param_alias" (.list [])).set "self.stmin" (pint 300)) := by
+  rw [params_set_agrees _ _ (.meth "self") (pint 300) (pbool false) "stmin" false rfl rfl rfl (fun _ => rfl)
+    (fun env1 h => by cases h; rfl) rfl]
+  rfl
+
+/-! ## 10. `Params._fits_float` -/
+
+/-- the expression `_fits_float` returns -/
+abbrev fitsExpr : PExpr :=
+  .call "math.isfinite" (.cons (.call "__mul__" (.cons (.call "__truediv__" (.cons (.call "float" (.cons (.var "value") .nil))
+    (.cons (.int 1000) .nil))) (.cons (.call "__float__" (.cons (.strLit "1000000000.0") .nil)) .nil))) .nil)
+
+theorem fits_eq : Src.TransportLayerLogic_Params_p_fits_float =
+    .cons (.tryCatch (.cons (.ret fitsExpr) .nil) "OverflowError" (.cons (.ret .ff) .nil)) .nil := rfl
+
+/-- **`_fits_float(value)`** (any callees): the value of `math.isfinite(float(value) / 1000 * 1e9)` when that evaluates,
+    `False` when it raises `OverflowError` - this is what `Facts.fits` stands for. -/
+theorem fits_float_exec (M : Meths) (env : Env) (n : Nat) (hn : 4 ≤ n) :
+    (∀ v, eval M env fitsExpr = .ok v → run2 n M env Src.TransportLayerLogic_Params_p_fits_float = .ok (.ret v env)) ∧
+    (eval M env fitsExpr = .error (.exc .OverflowError) →
+      run2 n M env Src.TransportLayerLogic_Params_p_fits_float = .ok (.ret (pbool false) env)) := by
+  obtain ⟨m, rfl⟩ : ∃ m, n = m + 4 := ⟨n - 4, by omega⟩
+  rw [fits_eq]
+  constructor
+  · intro v h
+    unfold run2
+    rw [exec2B_cons, exec2S_tryCatch, exec2B_single m M env _ rfl]
+    simp only [simple2, execStmt, h, ok_bind, ofFlow]
+  · intro h
+    unfold run2
+    rw [exec2B_cons, exec2S_tryCatch, exec2B_single m M env _ rfl]
+    simp only [simple2, execStmt, h, error_bind, ofPErr]
+    rfl
+
+/-- a `float()` that always overflows: `_fits_float` returns `False` -/
+example : run2 4 { fn := fun _ _ _ => .error (.exc .OverflowError), proc := fun _ _ e => .ok e } (fun _ => some (pint 7))
+    Src.TransportLayerLogic_Params_p_fits_float = .ok (.ret (pbool false) (fun _ => some (pint 7))) :=
+  (fits_float_exec _ _ 4 (Nat.le_refl _)).2 (by simp [fitsExpr, eval, evalArgs, nb_float])
+
 end Isotp.PyAgree.Params
+
+#print axioms Isotp.PyAgree.Params.params_validate_agrees_env
+#print axioms Isotp.PyAgree.Params.params_validate_agrees
+#print axioms Isotp.PyAgree.Params.params_validate_agrees_iff
+#print axioms Isotp.PyAgree.Params.params_validate_wait_raises
+#print axioms Isotp.PyAgree.Params.params_validate_not_fits
+#print axioms Isotp.PyAgree.Params.fits_disagreement
+#print axioms Isotp.PyAgree.Params.finalEnvOf_unchanged
+#print axioms Isotp.PyAgree.Params.finalEnvOf_override
+#print axioms Isotp.PyAgree.Params.finalEnvOf_tat
+#print axioms Isotp.PyAgree.Params.params_init_defaults
+#print axioms Isotp.PyAgree.Params.params_init_then_validate
+#print axioms Isotp.PyAgree.Params.params_set_agrees
+#print axioms Isotp.PyAgree.Params.fits_float_exec
